@@ -27,6 +27,15 @@ def bad_factory(shape):
     return np.ones(tuple(s + 1 for s in shape))
 
 
+def posonly_factory(shape, name=None, arg_index=None, /):
+    return np.full(shape, 2.0 if name is not None else 3.0)
+
+
+class _Shaped:
+    def __init__(self, shape):
+        self.shape = shape
+
+
 class CallableFactory:
     def __call__(self, shape):
         return np.full(shape, 5.0)
@@ -64,6 +73,10 @@ def _calls():
     add("add_facbad", "add", lambda e, graph: e.add("a, a", x3, bad_factory, **g(graph)))
     add("add_faccallable", "add", lambda e, graph: e.add("a, a", x3, CallableFactory(), **g(graph)))
     add("add_faclambda", "add", lambda e, graph: e.add("a, a", x3, lambda shape: np.full(shape, 9.0), **g(graph)))
+    # short-lived factories of different signatures (their addresses are recycled), same parameter names of different kinds
+    add("add_faclambda_named", "add", lambda e, graph: e.add("a, a", x3, lambda shape, name=None: np.full(shape, 2.0 if name is not None else 3.0), **g(graph)))
+    add("add_faclambda_kw", "add", lambda e, graph: e.add("a, a", x3, lambda shape, **kw: np.full(shape, 10.0 + len(kw)), **g(graph)))
+    add("add_facposonly", "add", lambda e, graph: e.add("a, a", x3, posonly_factory, **g(graph)))
     add("add_s_float", "add", lambda e, graph: e.add("a,", x3, 2.0, **g(graph)))
     add("add_s_int", "add", lambda e, graph: e.add("a,", x3, 2, **g(graph)))
     add("add_s_bool", "add", lambda e, graph: e.add("a,", x3, True, **g(graph)))
@@ -84,6 +97,22 @@ def _calls():
         with e.backend.get("numpy.einsum"):
             return e.add("a, a", x3, _x((3,), 7), **g(graph))
     add("add_with_einsum", "add", with_like_add)
+    # the generated text as outcome (graph=True whatever the harness asks for): backend selection and cached artefacts show here
+    add("dot_none_G", "dot", lambda e, graph: e.dot("a [b], [b] c -> a c", x23, _x((3, 2)), graph=True))
+    add("add_arr_G", "add", lambda e, graph: e.add("a, a", x3, _x((3,), 7), graph=True))
+    add("sum_plain_G", "sum", lambda e, graph: e.sum("a [b]", x23, graph=True))
+
+    def with_einsum_sum(e, graph):
+        with e.backend.get("numpy.einsum"):
+            return e.sum("a [b]", x23, **g(graph))
+    add("sum_with_einsum", "sum", with_einsum_sum)
+    # a call that fails for a transient reason outside the cache key (warnings turned into errors while tracing)
+
+    def werr(e, graph):
+        with warnings.catch_warnings():
+            warnings.simplefilter("error")
+            return e.sum("a [b]", x23, keepdims=True, **g(graph))
+    add("sum_keep_werr", "sum", werr)
     # failing calls
     add("id_syntax", "id", lambda e, graph: e.id("a b -> (a", x23, **g(graph)))
     add("id_rank", "id", lambda e, graph: e.id("a b c -> a", x23, **g(graph)))
@@ -92,20 +121,33 @@ def _calls():
     add("id_argcount", "id", lambda e, graph: e.id("a b, a b -> a b", x23, **g(graph)))
     add("add_unsupported", "add", lambda e, graph: e.add("a, a", x3, x3, backend="numpy.einsum", **g(graph)))
     # adapters
-    def adapted(e, graph, scale):
+    def adapter(e):
         f = _adapted_cache.get("f")
         if f is None:
-            def fun(x, axis, *, scale=1.0):
-                return np.sum(x, axis=axis) * scale
+            def fun(x, axis, *, scale=1.0, bounds=(0, 0)):
+                return np.sum(x, axis=axis) * scale + (0.5 if isinstance(bounds[1], float) else 0.0) + bounds[1]
             f = _adapted_cache["f"] = e.numpy.adapt_numpylike_reduce(fun)
-        return f("a [b]", x23, scale=scale, **g(graph))
+        return f
+
+    def adapted(e, graph, scale):
+        return adapter(e)("a [b]", x23, scale=scale, **g(graph))
     add("adapt_s2", "adapt", lambda e, graph: adapted(e, graph, 2.0))
     add("adapt_s2i", "adapt", lambda e, graph: adapted(e, graph, 2))
     add("adapt_s3", "adapt", lambda e, graph: adapted(e, graph, 3.0))
+
+    def adapted_b(e, graph, bounds):
+        return adapter(e)("a [b]", x23, bounds=bounds, **g(graph))
+    add("adapt_b_ii", "adapt", lambda e, graph: adapted_b(e, graph, (0, 20)))
+    add("adapt_b_if", "adapt", lambda e, graph: adapted_b(e, graph, (0, 20.0)))
+    add("adapt_b_list", "adapt", lambda e, graph: adapted_b(e, graph, [0, 20]))
     # no cache at all
     add("solve_ok", "solve", lambda e, graph: e.solve_axes("a b", x23))
     add("solve_bad", "solve", lambda e, graph: e.solve_axes("a b c", x23))
     add("matches", "solve", lambda e, graph: e.matches("a (b c)", x23, c=2))
+    add("solve_ell_scalar", "solve", lambda e, graph: e.solve_axes("b a...", _Shaped((4, 1, 1)), a=1))
+    add("solve_ell_tuple1", "solve", lambda e, graph: e.solve_axes("b a...", _Shaped((4, 1, 1)), a=(1,)))
+    add("solve_ell_tuple2", "solve", lambda e, graph: e.solve_axes("b a...", _Shaped((4, 1, 1)), a=(1, 1)))
+    add("matches_ell_tuple1", "solve", lambda e, graph: e.matches("b a...", _Shaped((4, 1, 1)), a=(1,)))
     return C
 
 
